@@ -331,3 +331,67 @@ def chips(case, ctx):
                         f"intensity differs from |coherent sum|^2 by {cm.max_abs(inten - np.abs(total) ** 2):.3e} "
                         f"(peak {peak ** 2:.3e}) for {len(rects)} fields at {rects}: contributions of different "
                         f"segments were added as intensities")
+
+
+# --- fitted tilt must not depend on how the aperture is described ---------------------------------------------
+
+@st.composite
+def fit_case(draw, tier="quick"):
+    k = draw(st.integers(2, 4))
+    w_ = draw(st.integers(3, 5))
+    m = draw(st.integers(4, 8))
+    vertical = draw(st.booleans())
+    shape = (m, k * w_) if vertical else (k * w_, m)
+    labels = np.zeros(shape, dtype=int)
+    for j in range(k):
+        if vertical:
+            labels[:, j * w_:(j + 1) * w_] = j + 1
+        else:
+            labels[j * w_:(j + 1) * w_, :] = j + 1
+    # per-segment displacement in output samples, all below half a sample (the evaluated window does not move);
+    # some segments exactly flat
+    disp = [[0.0, 0.0] if draw(st.integers(0, 2)) == 0 else [draw(gen.finite(-0.4, 0.4)), draw(gen.finite(-0.4, 0.4))]
+            for _ in range(k)]
+    return {"labels": labels, "k": k, "disp": disp, "oversample": draw(st.integers(1, 2)),
+            "out_shape": [draw(st.integers(4, 9)), draw(st.integers(4, 9))], "seed": draw(st.integers(0, 2**31 - 1)),
+            "inplace": draw(st.booleans())}
+
+
+@hyp("C03", "fit_segments", lambda tier: fit_case(tier),
+     "stripe segments with sub-sample tilts (some segments exactly flat): the image of the segmented plane with "
+     "its tilt fitted equals the image without fitting and the image of the monolithic description", examples=(200, 800))
+def fit_segments(case, ctx):
+    labels, k = case["labels"], case["k"]
+    shape = labels.shape
+    wl, z, dx, os_ = 1e-6, 2.0, 1e-3, case["oversample"]
+    du = (6e-6, 8e-6)
+    rng = np.random.default_rng(case["seed"])
+    amp = rng.uniform(0.5, 1.5, size=shape)
+    r = (np.arange(shape[0]) - shape[0] // 2)[:, None] * dx
+    c = (np.arange(shape[1]) - shape[1] // 2)[None, :] * dx
+    opd = np.zeros(shape)
+    for j in range(k):
+        s_r, s_c = case["disp"][j]
+        opd = opd + (r * (s_r * du[0] / (z * os_)) + c * (s_c * du[1] / (z * os_))) * (labels == j + 1)
+    cube_ = cube(labels)
+    nflat = sum(1 for d in case["disp"] if d == [0.0, 0.0])
+    ctx.tag(f"k:{k}", f"flat:{nflat}", "flat_before_tilted" if any(case["disp"][i] == [0.0, 0.0] and any(
+        d != [0.0, 0.0] for d in case["disp"][i + 1:]) for i in range(k)) else None, "inplace" if case["inplace"] else "copy")
+    ctx.nontrivial_if(0 < nflat < k)
+
+    def image(mask, fit):
+        p = lentil.Pupil(amplitude=amp.copy(), opd=opd.copy(), mask=mask.copy(), pixelscale=dx, focal_length=z)
+        if fit:
+            p = p.fit_tilt(inplace=True) if case["inplace"] else p.fit_tilt(inplace=False)
+        return lentil.propagate_dft(lentil.Wavefront(wl) * p, pixelscale=du, shape=tuple(case["out_shape"]),
+                                    oversample=os_).field
+    with lentil_call("C03.fit", "segmented / monolithic, fitted / not fitted"):
+        f_seg, f_seg_fit = image(cube_, False), image(cube_, True)
+        f_mono = image((labels > 0).astype(int), False)
+    peak = max(cm.max_abs(f_mono), 1e-300)
+    if cm.max_abs(f_seg - f_mono) > 1e-11 * peak:
+        raise Violation("C03.fit.segmented", "segmented and monolithic descriptions differ (no fitting)")
+    if f_seg_fit.shape != f_mono.shape or cm.max_abs(f_seg_fit - f_mono) > 1e-9 * peak:
+        raise Violation("C03.fit.fitted", f"the image of the segmented plane changes by "
+                                          f"{cm.max_abs(f_seg_fit - f_mono) / peak:.3e} of its peak when the segment tilts "
+                                          f"(all below half a sample; displacements {case['disp']}) are fitted first")
